@@ -13,6 +13,7 @@ def level_plan(tier):
             (1, 'full', 'full', lambda i, n: 'full', (False, True)),
             (2, 'mid', 'mid', lambda i, n: 'core', (False,)),
             (1, 'full', 'full', lambda i, n: 'mid', ('decoy',)),
+            (3, 'core', 'core', lambda i, n: 'tiny', ('chain',)),
         ]
     return [
         (1, 'full', 'full', lambda i, n: 'full', (False, True)),
@@ -38,7 +39,10 @@ def programs(tier, part, nparts, plan=None):
     """yield (description, source) for this shard.  Sharding is by shape index so that generation work is divided too."""
     idx = 0
     for nscopes, klevel, slevel, levels, cf in (plan or level_plan(tier)):
-        for shape in g.shapes(nscopes, klevel, slevel):
+        chain = cf == ('chain',)
+        if chain:
+            cf = (False,)
+        for shape in g.shapes(nscopes, klevel, slevel, chain_only=chain):
             idx += 1
             if idx % nparts != part:
                 continue
